@@ -34,6 +34,8 @@ type RenderTable interface {
 // just be a single field with no dot.  The first section is either the name of
 // a sub-package, or a known registered decoration of texttable.
 // Wrap(t, "texttable.utf8-light") is the same as Wrap(t, "utf8-light").
+// A decoration registered under a name containing dots is selected by that
+// whole name, with or without the "texttable." prefix.
 //
 // The style sections after the first are interpreted dependent upon the first
 // section and not yet locked down by API.
@@ -52,14 +54,29 @@ func Wrap(t tabular.Table, style string) RenderTable {
 	case "texttable":
 		tt := texttable.Wrap(t)
 		if len(sections) > 1 {
-			tt.SetDecorationNamed(sections[1])
+			tt.SetDecorationNamed(decorationName(sections[1], style[len(sections[0])+1:], sections[1], style))
 		}
 		return tt
 	default:
 		tt := texttable.Wrap(t)
-		tt.SetDecorationNamed(sections[0])
+		tt.SetDecorationNamed(decorationName(sections[0], style, sections[0]))
 		return tt
 	}
+}
+
+// decorationName picks the decoration name out of a style.  Normally that is
+// the one section in the expected place, but a decoration may have been
+// registered under a name which itself contains dots, and every registered
+// name is listed by ListStyles as a valid input to New: so the candidates are
+// tried in order and the first which is a registered name wins; if none is,
+// the plain section is returned (and will be reported as unknown).
+func decorationName(section string, candidates ...string) string {
+	for _, candidate := range candidates {
+		if decoration.Named(candidate) != decoration.EmptyDecoration {
+			return candidate
+		}
+	}
+	return section
 }
 
 // New creates a new tabular.Table and Wrap()s it.
